@@ -430,31 +430,15 @@ func (s *Sorter) SortedRows(ctx context.Context, removedCols map[int]struct{}, e
 						continue
 					}
 				}
-				if minRow == nil {
+				if minRow == nil || objects.StringSliceIsLess(s.PK, chunkRows[i], minRow) {
 					minRow = chunkRows[i]
 					minInd = i
-				} else {
-					for _, u := range s.PK {
-						if chunkRows[i][u] < minRow[u] {
-							minRow = chunkRows[i]
-							minInd = i
-							break
-						}
-					}
 				}
 			}
 			if len(s.current) > 0 {
-				if minRow == nil {
+				if minRow == nil || objects.StringSliceIsLess(s.PK, s.current[0], minRow) {
 					minRow = s.current[0]
 					minInd = n
-				} else {
-					for _, u := range s.PK {
-						if s.current[0][u] < minRow[u] {
-							minRow = s.current[0]
-							minInd = n
-							break
-						}
-					}
 				}
 			}
 			if minRow == nil {
